@@ -91,3 +91,7 @@ mod tests {
         Ok(())
     }
 }
+
+#[cfg(kani)]
+#[path = "/verif/harness/sam/writer_quality_scores.rs"]
+mod verif_kani;
